@@ -229,8 +229,16 @@ class D(StateMachine):
         LOG.append("jump")
         return "J"
     start = Event(a.to(b), id="begin")               # an explicit Event whose own id is not the attribute name
+    leap = Event(a.to(b), name="Same name")          # two events with the same display name are two events
+    hop = Event(a.to(b), name="Same name")
     def __len__(self):                                # a machine that is a (currently empty) container: falsy
         return 0
+
+class R(StateMachine):
+    x = State(initial=True)
+    y = State()
+    x.to(y, event=["cycle", "cycle slowdown"])       # a name repeated before a new one in one declaration
+    y.to(x, event="back")
 
 class T:
     pass
@@ -258,9 +266,9 @@ def run_entry_probes(desc):
             try:
                 exec(compile(ENTRY_SRC, "<c13-entry>", "exec"), ns)
                 sm = ns["D"]()
-                if sorted(str(e) for e in sm.events) != ["back", "ev", "jump", "start"]:
+                if sorted(str(e) for e in sm.events) != ["back", "ev", "hop", "jump", "leap", "start"]:
                     problems.append(f"events {[str(e) for e in sm.events]}")
-                if sorted(str(e) for e in sm.allowed_events) != ["ev", "jump", "start"]:
+                if sorted(str(e) for e in sm.allowed_events) != ["ev", "hop", "jump", "leap", "start"]:
                     problems.append(f"allowed_events in a: {[str(e) for e in sm.allowed_events]}")
                 style = ["method", "send", "item"][rep % 3]
                 for name, ret, tag, dst in (("ev", "H", "helper", "b"), ("back", "L", "lam", "a"), ("jump", "J", "jump", "b")):
@@ -279,6 +287,16 @@ def run_entry_probes(desc):
                 if sm.current_state.id != "b":
                     problems.append(f"{style} start: state {sm.current_state.id}")
                 sm.send("back")
+                sm.send("leap")
+                if sm.current_state.id != "b":
+                    problems.append(f"leap: state {sm.current_state.id}")
+                sm.send("back")
+                r = ns["R"]()
+                if sorted(str(e) for e in r.events) != ["back", "cycle", "slowdown"] or sorted(str(e) for e in r.allowed_events) != ["cycle", "slowdown"]:
+                    problems.append(f"R: events {[str(e) for e in r.events]} allowed {[str(e) for e in r.allowed_events]}")
+                r.send("slowdown")
+                if r.current_state.id != "y":
+                    problems.append(f"R: slowdown did not fire ({r.current_state.id})")
                 for bad in ("helper", "<lambda>", "begin"):
                     try:
                         sm.send(bad)
